@@ -173,6 +173,7 @@ func (p *Prog) resolveFieldRoles() {
 	// touch the helper roles that rules compare by canonical name
 	p.Func(cborRel, "readNBytes")
 	p.Func(cborRel, "readByte")
+	p.Func(cborRel, "moreBytesToRead")
 	p.Method(diodesRel, "Poller", "isDone")
 	p.Method(diodesRel, "Waiter", "isDone")
 
